@@ -82,7 +82,11 @@ func (context *CHFContext) NewCHFUe(supi string) (*ChfUe, error) {
 		ue.init()
 
 		if supi != "" {
-			context.AddChfUeToUePool(&ue, supi)
+			ue.Supi = supi
+			// another request may have created the context of this subscriber since the look-up above
+			if actual, loaded := context.UePool.LoadOrStore(supi, &ue); loaded {
+				return actual.(*ChfUe), nil
+			}
 		}
 
 		return &ue, nil
